@@ -140,20 +140,13 @@ in the wrap tree is an Interrupted/StackOverflow error". -/
 theorem isUncatchable_eq_spec (e : GoErr) : e.isUncatchable = e.containsUncatchable := by
   induction e <;> simp_all [GoErr.isUncatchable, GoErr.containsUncatchable]
 
-theorem GoErr.isUncatchable_peel (e : GoErr) : e.peel.isUncatchable = e.isUncatchable := by
-  induction e with
-  | wrap i inner ih =>
-    cases i with
-    | zero => simpa [GoErr.peel, GoErr.isUncatchable] using ih
-    | succ n => simp [GoErr.peel]
-  | _ => simp [GoErr.peel]
-
 /-- An uncatchable error is returned to the host as that very error (wrapped once more per wrapping native frame
 it passed: `e'.peel = e.peel`; exactly `e` if the chain has no such frame), and NO catch block, NO finally block
 and NO iterator return() method of the chain observes it: the script-visible log is exactly what the segments
 before the throwing one log when they complete normally (nothing at all without a job frame). -/
 theorem uncatchable_invisible (entry : Entry) (chain : List Frame) (p : Payload) (e : GoErr) (o : StackTop)
-    (hp : p.flow = .panic (.goErr e) o) (he : e.isUncatchable = true) :
+    (hp : p.flow = .panic (.goErr e) o) (he : e.isUncatchable = true)
+    (hd : ∀ f ∈ chain, f.dropsErrors = false) :
     ∃ e', (hostRun entry chain p).host = .err (.go e') ∧ e'.peel = e.peel ∧ e'.isUncatchable = true ∧
     ((∀ f ∈ chain, f.rewraps = false) → e' = e) ∧
     (hostRun entry chain p).rej = [] ∧
@@ -161,6 +154,7 @@ theorem uncatchable_invisible (entry : Entry) (chain : List Frame) (p : Payload)
     (∀ l ∈ (hostRun entry chain p).log, l.kind = .fin) ∧
     (hasSplit chain = false → (hostRun entry chain p).log = []) := by
   obtain ⟨x', hu, hr, h1, h2, h3⟩ := hostRun_unclassifiable entry chain p hp (x := .goErr e) rfl
+    (Or.inl (allSegs_frames (P := fun f => f.dropsErrors = false) chain hd))
   obtain ⟨hu1, hu2, _⟩ := hu
   cases x' with
   | goErr e' =>
@@ -184,36 +178,82 @@ theorem uncatchable_invisible (entry : Entry) (chain : List Frame) (p : Payload)
   | other n => simp [Pv.peel] at hu2
 
 /-- Instances: a real interrupt, a real stack overflow, an uncatchable error returned or panicked by native code. -/
-theorem uncatchable_invisible_interrupt (entry : Entry) (chain : List Frame) (id : Nat) (iface : GoErr) :
+theorem uncatchable_invisible_interrupt (entry : Entry) (chain : List Frame) (id : Nat) (iface : GoErr)
+    (hd : ∀ f ∈ chain, f.dropsErrors = false) :
     (∃ e', (hostRun entry chain (.jsInterrupt id iface)).host = .err (.go e') ∧
       e'.peel = (GoErr.interruptedE id iface).peel) ∧
     (∀ l ∈ (hostRun entry chain (.jsInterrupt id iface)).log, l.kind = .fin) ∧
     (hasSplit chain = false → (hostRun entry chain (.jsInterrupt id iface)).log = []) := by
   obtain ⟨e', a, b, _, _, _, _, c, d⟩ := uncatchable_invisible entry chain (.jsInterrupt id iface)
-    (.interruptedE id iface) .thrower rfl rfl
+    (.interruptedE id iface) .thrower rfl rfl hd
   exact ⟨⟨e', a, b⟩, c, d⟩
 
-theorem uncatchable_invisible_stackOverflow (entry : Entry) (chain : List Frame) (id : Nat) :
+theorem uncatchable_invisible_stackOverflow (entry : Entry) (chain : List Frame) (id : Nat)
+    (hd : ∀ f ∈ chain, f.dropsErrors = false) :
     (∃ e', (hostRun entry chain (.jsStackOverflow id)).host = .err (.go e') ∧
       e'.peel = (GoErr.stackOverflow id).peel) ∧
     (∀ l ∈ (hostRun entry chain (.jsStackOverflow id)).log, l.kind = .fin) ∧
     (hasSplit chain = false → (hostRun entry chain (.jsStackOverflow id)).log = []) := by
   obtain ⟨e', a, b, _, _, _, _, c, d⟩ := uncatchable_invisible entry chain (.jsStackOverflow id)
-    (.stackOverflow id) .thrower rfl rfl
+    (.stackOverflow id) .thrower rfl rfl hd
   exact ⟨⟨e', a, b⟩, c, d⟩
+
+/-- The interrupt flag is sticky: even a native frame that DROPS the error it got from the Callable (and any
+number of them, anywhere in the chain) cannot hide a real interrupt from a host that entered through RunProgram:
+vm.run raises it again at the next script instruction.  The host gets an error carrying the *InterruptedError, and
+no catch, finally or iterator return() of the chain runs. -/
+theorem interrupt_cannot_be_swallowed (chain : List Frame) (id : Nat) (iface : GoErr)
+    (hn : hasSplit chain = false) :
+    ∃ e', (hostRun .runString chain (.jsInterrupt id iface)).host = .err (.go e') ∧
+      e'.liveInterrupt = some (.interruptedE id iface) ∧
+      (hostRun .runString chain (.jsInterrupt id iface)).log = [] ∧
+      (hostRun .runString chain (.jsInterrupt id iface)).rej = [] := by
+  have hi : (GoErr.interruptedE id iface).liveInterrupt = some (.interruptedE id iface) ∧
+      (GoErr.interruptedE id iface).isUncatchable = true := ⟨rfl, rfl⟩
+  have hpr := (splitSegs_snd_nil_iff chain 0).mpr hn
+  simp only [hostRun]
+  generalize splitSegs (indexed 0 chain) = sg at *
+  obtain ⟨s0, ss⟩ := sg
+  simp only at hpr
+  subst hpr
+  have hl : Live (.interruptedE id iface) (Payload.jsInterrupt id iface).flow := by
+    simp [Payload.flow, Live, GoErr.liveInterrupt, GoErr.isUncatchable]
+  obtain ⟨c1, c2⟩ := evalSeg_live s0 (Payload.jsInterrupt id iface).isJS hi hl
+  simp only [hostRunSegs, segInner, List.isEmpty_nil, ↓reduceIte, c2]
+  generalize (evalSeg s0 (Payload.jsInterrupt id iface).flow (Payload.jsInterrupt id iface).isJS).1 = fl at c1
+  cases fl with
+  | normal => simp [Live] at c1
+  | pending e =>
+    have : e = .interruptedE id iface := c1
+    subst this
+    refine ⟨.interruptedE id iface, ?_, rfl, ?_, ?_⟩ <;>
+      simp [firstCall, runProgram, runProgram.handleThrowOpt, recoverUncatchable, asUncatchableException,
+        GoErr.isUncatchable, ranLeave, finish, CallRes.toHost]
+  | panic x o =>
+    cases x with
+    | goErr e =>
+      obtain ⟨hl', hu⟩ := c1
+      refine ⟨e, ?_, hl', ?_, ?_⟩ <;>
+        simp [firstCall, runProgram, runProgram.handleThrowOpt, handleThrow, handleThrowLoop, exceptionFromValue,
+          recoverUncatchable, asUncatchableException, hu, ranLeave, finish, CallRes.toHost]
+    | val w => simp [Live] at c1
+    | exc ex => simp [Live] at c1
+    | sentinel k => simp [Live] at c1
+    | other n => simp [Live] at c1
 
 /-- Full strength, spec-level: ANY Go error whose wrap tree (fmt.Errorf %w, errors.Join, a wrapped *Exception
 holding a GoError) contains an Interrupted/StackOverflow error, returned or panicked by a native function, is
 handed to the host as an error and is observed by no catch / finally / iterator return() of the chain. -/
 theorem uncatchable_invisible_spec (entry : Entry) (chain : List Frame) (e : GoErr) (p : Payload)
-    (hp : p = .natReturn (some e) ∨ p = .natPanicErr e) (hc : e.containsUncatchable = true) :
+    (hp : p = .natReturn (some e) ∨ p = .natPanicErr e) (hc : e.containsUncatchable = true)
+    (hd : ∀ f ∈ chain, f.dropsErrors = false) :
     (∃ e', (hostRun entry chain p).host = .err (.go e') ∧ e'.peel = e.peel) ∧
     (∀ l ∈ (hostRun entry chain p).log, l.kind = .fin) ∧
     (hasSplit chain = false → (hostRun entry chain p).log = []) := by
   have he : e.isUncatchable = true := by rw [isUncatchable_eq_spec]; exact hc
   have hf : p.flow = .panic (.goErr e) .other := by
     rcases hp with rfl | rfl <;> simp [Payload.flow, wrapReflectErr, he]
-  obtain ⟨e', a, b, _, _, _, _, c, d⟩ := uncatchable_invisible entry chain p e .other hf he
+  obtain ⟨e', a, b, _, _, _, _, c, d⟩ := uncatchable_invisible entry chain p e .other hf he hd
   exact ⟨⟨e', a, b⟩, c, d⟩
 
 /-- Regression lemma about the classifier BEFORE fix cbcbe34 (an `errors.Unwrap` loop): it missed an uncatchable
@@ -229,7 +269,8 @@ theorem uncatchable_join_observed_prefix_witness :
 
 /-- A Go panic value that is neither a goja Value / *Exception / sentinel nor an uncatchable error (an arbitrary
 Go value, a plain Go error, a runtime.Error) reaches the host as that very panic value, through every chain and
-every entry (no frame wraps or replaces it); no catch, finally or iterator return() of the chain runs for it. -/
+every entry (no frame wraps or replaces it — also not a native frame that swallows the ERRORS it gets: a panic is
+not an error value); no catch, finally or iterator return() of the chain runs for it. -/
 theorem foreign_panic_passthrough (entry : Entry) (chain : List Frame) (p : Payload) (x : Pv)
     (hp : (∃ id, p = .natPanicOther id ∧ x = .other id) ∨
           (∃ e, p = .natPanicErr e ∧ x = .goErr e ∧ e.isUncatchable = false) ∨
@@ -245,7 +286,7 @@ theorem foreign_panic_passthrough (entry : Entry) (chain : List Frame) (p : Payl
         by simp [asUncatchableException, he]⟩
     · exact ⟨rfl, rfl, by simp [escapeHost, recoverUncatchable, asUncatchableException, GoErr.isUncatchable,
         CallRes.toHost], by simp [asUncatchableException, GoErr.isUncatchable]⟩
-  obtain ⟨x', hu, _, h1, h2, h3⟩ := hostRun_unclassifiable entry chain p hx.2.1 hx.1
+  obtain ⟨x', hu, _, h1, h2, h3⟩ := hostRun_unclassifiable entry chain p hx.2.1 hx.1 (Or.inr hx.2.2.2)
   have hxx : x' = x := hu.2.2 hx.2.2.2
   subst hxx
   refine ⟨by rw [h1, hx.2.2.1], h2, ?_, ?_⟩
@@ -287,14 +328,50 @@ theorem recover_sites_agree (fl : Flow) (a b : Bool) :
     runProgram fl = runWrapped fl ∧ callable a fl = callable b fl ∧ vmTry (jsCall fl) = vmTry fl :=
   ⟨runProgram_eq_runWrapped fl, callable_indep a b fl, vmTry_jsCall fl⟩
 
-/-! ### stack_top_is_throw_site (partial) -/
+/-! ### stack_top_is_throw_site -/
 
-/-- PARTIAL (top frame only, and only for the cases below): a value thrown by script that is not an Error object
-with a non-empty own stack reaches the host, through any chain whose frames do not re-throw or re-wrap it, in an
-*Exception whose stack top is the thrower's `throw` statement.  Missing w.r.t. the property text: the rest of
-the stack; Error objects (their stack is the creation site, by design of `_throw`); values re-thrown by a catch
-block or by a native `panic(ex.Value())` (a new stack is captured there unless the value is an Error object). -/
-theorem stack_top_is_throw_site_partial (entry : Entry) (chain : List Frame) (v : JsVal)
+/-- `lastRaise` (defined frame by frame) is what its name says: the top is decided by the OUTERMOST frame that
+raises the value anew — a catch block with `throw e` (top = that `throw e` statement, unless `v` is an Error
+object with a non-empty own stack) or a native `panic(ex.Value())` (top = native position / the Error object's own
+stack) — and by the innermost raise (`init`) if there is no such frame. -/
+theorem lastRaise_outermost (v : JsVal) (init : StackTop) (s : Seg) :
+    lastRaise v init s =
+      match s.find? (fun q => q.2.rethrows) with
+      | none => init
+      | some (i, .fcv) => nativeTop v
+      | some (i, _) => (throwExec (.rethrow i) v).top := by
+  induction s with
+  | nil => rfl
+  | cons hd tl ih =>
+    obtain ⟨i, f⟩ := hd
+    cases f with
+    | js k => cases k <;> simp [lastRaise, stepTop, Frame.rethrows, JsKind.rethrows, List.find?, ih]
+    | _ => simp [lastRaise, stepTop, Frame.rethrows, List.find?, ih]
+
+/-- FULL STRENGTH (top frame, which is what the property text speaks of): for `throw v` by script and for a native
+`panic(v)`, through EVERY chain that lets the value through (no swallowing / wrapping frame; ExportTo'd funcs only
+if `v` holds no Go error), whatever frames re-throw it on the way, the host's *Exception has value `v` and its
+stack top is the LAST RAISE SITE: the outermost re-raising frame's site, else the thrower's site. -/
+theorem stack_top_eq_last_raise_site (entry : Entry) (chain : List Frame) (p : Payload) (v : JsVal)
+    (hsw : ∀ f ∈ chain, f.swallows = false) (hrw : ∀ f ∈ chain, f.rewraps = false)
+    (hu : v.goErrValue = none ∨ (entry ≠ .exported ∧ ∀ f ∈ chain, f.unwraps = false))
+    (hn : hasSplit chain = false) :
+    (p = .jsThrow v → (hostRun entry chain p).host =
+        .err (.exc ⟨v, lastRaise v (throwExec .thrower v).top (indexed 0 chain)⟩)) ∧
+    (p = .natPanicVal v → (hostRun entry chain p).host =
+        .err (.exc ⟨v, lastRaise v (nativeTop v) (indexed 0 chain)⟩)) := by
+  constructor
+  · rintro rfl
+    exact hostRun_topIs entry chain _ (v := v) (t := (throwExec .thrower v).top)
+      (by simp [Payload.flow, TopIs, throwExec]) hsw hrw hu hn
+  · rintro rfl
+    exact hostRun_topIs entry chain _ (v := v) (t := nativeTop v)
+      (by simp [Payload.flow, TopIs]) hsw hrw hu hn
+
+/-- Script `throw v`, nobody re-raises: the top is the `throw` statement — for every value that is not an Error
+object carrying a non-empty creation stack; in particular for an Error / GoError object the HOST created outside any
+running code (own stack allocated but empty: the class of seeded change C14-m4). -/
+theorem stack_top_is_throw_site (entry : Entry) (chain : List Frame) (v : JsVal)
     (hv : v.ownStack = none ∨ v.ownStack = some .empty)
     (hsw : ∀ f ∈ chain, f.swallows = false) (hr : ∀ f ∈ chain, f.rethrows = false)
     (hrw : ∀ f ∈ chain, f.rewraps = false)
@@ -306,6 +383,75 @@ theorem stack_top_is_throw_site_partial (entry : Entry) (chain : List Frame) (v 
   have hp : Exact ⟨v, .thrower⟩ (Payload.jsThrow v).flow := by
     simp [Payload.flow, Exact, hex]
   exact hostRun_exact entry chain _ hp hsw hr hrw hu hn
+
+/-- Re-thrown values: if the outermost re-raising frame is a catch block with `throw e` at frame index `i`, the top is
+that `throw e` statement (same class of values). -/
+theorem stack_top_is_outermost_rethrow_site (entry : Entry) (chain : List Frame) (p : Payload) (v : JsVal)
+    (i : Nat) (k : JsKind)
+    (hp : p = .jsThrow v ∨ p = .natPanicVal v)
+    (hv : v.ownStack = none ∨ v.ownStack = some .empty)
+    (hfind : (indexed 0 chain).find? (fun q => q.2.rethrows) = some (i, .js k))
+    (hsw : ∀ f ∈ chain, f.swallows = false) (hrw : ∀ f ∈ chain, f.rewraps = false)
+    (hu : v.goErrValue = none ∨ (entry ≠ .exported ∧ ∀ f ∈ chain, f.unwraps = false))
+    (hn : hasSplit chain = false) :
+    (hostRun entry chain p).host = .err (.exc ⟨v, .rethrow i⟩) := by
+  have hte : (throwExec (.rethrow i) v).top = .rethrow i := by
+    rcases hv with h | h <;> simp [throwExec, h]
+  obtain ⟨h1, h2⟩ := stack_top_eq_last_raise_site entry chain p v hsw hrw hu hn
+  rcases hp with rfl | rfl
+  · rw [h1 rfl, lastRaise_outermost, hfind]; simp [hte]
+  · rw [h2 rfl, lastRaise_outermost, hfind]; simp [hte]
+
+/-- Error objects made by running code carry their creation stack: whoever re-throws them (script `throw e`, native
+`panic(ex.Value())`) and however often, the top stays the Error object's own stack top. -/
+theorem stack_top_of_error_object_is_own_stack (entry : Entry) (chain : List Frame) (p : Payload) (v : JsVal)
+    (s : StackTop) (hp : p = .jsThrow v ∨ p = .natPanicVal v)
+    (hv : v.ownStack = some s) (hs : s ≠ .empty)
+    (hsw : ∀ f ∈ chain, f.swallows = false) (hrw : ∀ f ∈ chain, f.rewraps = false)
+    (hu : v.goErrValue = none ∨ (entry ≠ .exported ∧ ∀ f ∈ chain, f.unwraps = false))
+    (hn : hasSplit chain = false) :
+    (hostRun entry chain p).host = .err (.exc ⟨v, s⟩) := by
+  have hte : ∀ site, (throwExec site v).top = s := by
+    intro site; cases s <;> simp_all [throwExec]
+  have hnt : nativeTop v = s := by simp [nativeTop, hv]
+  have hl : ∀ sg : Seg, lastRaise v s sg = s := by
+    intro sg
+    induction sg with
+    | nil => rfl
+    | cons hd tl ih =>
+      obtain ⟨i, f⟩ := hd
+      cases f with
+      | js k => cases k <;> simp [lastRaise, stepTop, JsKind.rethrows, ih, hte]
+      | _ => simp [lastRaise, stepTop, ih, hnt]
+  obtain ⟨h1, h2⟩ := stack_top_eq_last_raise_site entry chain p v hsw hrw hu hn
+  rcases hp with rfl | rfl
+  · rw [h1 rfl, hte, hl]
+  · rw [h2 rfl, hnt, hl]
+
+/-- Native panics: `panic(v)` in a native function, nobody re-raises by `throw e`: the top is a native position
+(class `other`) for a value without own stack. -/
+theorem stack_top_of_native_panic (entry : Entry) (chain : List Frame) (v : JsVal)
+    (hv : v.ownStack = none)
+    (hsw : ∀ f ∈ chain, f.swallows = false) (hrw : ∀ f ∈ chain, f.rewraps = false)
+    (hr : ∀ f ∈ chain, ∀ k, f = .js k → k.rethrows = false)
+    (hu : v.goErrValue = none ∨ (entry ≠ .exported ∧ ∀ f ∈ chain, f.unwraps = false))
+    (hn : hasSplit chain = false) :
+    (hostRun entry chain (.natPanicVal v)).host = .err (.exc ⟨v, .other⟩) := by
+  have hnt : nativeTop v = .other := by simp [nativeTop, hv]
+  have hl : ∀ (j : Nat) (fs : List Frame), (∀ f ∈ fs, ∀ k, f = .js k → k.rethrows = false) →
+      lastRaise v .other (indexed j fs) = .other := by
+    intro j fs
+    induction fs generalizing j with
+    | nil => intro _; rfl
+    | cons f tl ih =>
+      intro h
+      have ih' := ih (j + 1) (fun g hg => h g (List.mem_cons_of_mem _ hg))
+      cases f with
+      | js k =>
+        have := h (.js k) (List.mem_cons_self ..) k rfl
+        simp [indexed, lastRaise, stepTop, this, ih']
+      | _ => simp [indexed, lastRaise, stepTop, ih', hnt]
+  rw [(stack_top_eq_last_raise_site entry chain _ v hsw hrw hu hn).2 rfl, hnt, hl 0 chain hr]
 
 /-! ### Exception.Error() -/
 
@@ -331,7 +477,7 @@ theorem error_method_panics_prefix_witness :
 generator body with try/finally, six native conventions incl. panic(ex.Value()). -/
 example : let chain : List Frame := [.js .jrf, .fc, .js .jf, .rfe, .ct, .js .jr, .ji, .jgf, .fcv, .fo]
     (∀ f ∈ chain, f.swallows = false) ∧ (∀ f ∈ chain, f.rewraps = false) ∧ hasSplit chain = false ∧
-    (hostRun .runString chain (.jsThrow (.obj 1))).host = .err (.exc ⟨.obj 1, .rethrow true⟩) ∧
+    (hostRun .runString chain (.jsThrow (.obj 1))).host = .err (.exc ⟨.obj 1, .rethrow 0⟩) ∧
     (hostRun .runString chain (.jsThrow (.obj 1))).log =
       [⟨7, .fin⟩, ⟨6, .iterReturn⟩, ⟨5, .caught (.obj 1)⟩, ⟨2, .fin⟩, ⟨0, .caught (.obj 1)⟩, ⟨0, .fin⟩] := by decide
 
